@@ -187,6 +187,9 @@ def C07(tier):
     jobs += [hj("h_group", 6 * m, first=2000, ncpu=1, scale=40, mode="tokens"), hj("h_group", 8 * m, first=2100, ncpu=2, scale=60, mode="mixed"),
              hj("h_group", 8 * m, first=2200, ncpu=4, mode="tokens")]
     jobs += [hj("h_group", 4 * m, first=3000, flavor="asan", scale=40, timeout=600)]
+    # quiescent rounds: a wake-up lost at a zero transition leaves every thread asleep (stuck witness)
+    jobs += [hj("h_group", 3 * m, first=4000, mode="rounds"), hj("h_group", 3 * m, first=4100, mode="rounds"),
+             hj("h_group", 2 * m, first=4200, mode="rounds", ncpu=3, scale=50), hj("h_group", 2 * m, first=4300, mode="rounds", ncpu=2, scale=30)]
     jobs += [Job("tsan", "h_handoff", ["--trials=%d" % (4 * m), "--first=300", "--scale=40"], timeout=900, tag="h_handoff:tsan")]
     if tier == "thorough":
         for t in jobs:
@@ -198,6 +201,9 @@ def C07(tier):
         "notify_order_checked": 30000,
         "site:dispatch_group_leave:3": 10000,   # zero transitions with waiters/notifications
         "site:_dispatch_group_wait_slow:0": 10000,
+        "rounds": 40000,
+        "round_waits_released": 20000,
+        "round_notifies_fired": 10000,
     }
     rule = ("one case = one trial: 2-8 threads doing enter/leave, group_async, notify and wait (forever / timed on three clocks / "
             "zero timeout) on ONE group reused through thousands of zero transitions, under a perturbation profile at the library's "
